@@ -440,6 +440,11 @@ fn main() {
         exit(exitcode::DATAERR);
     });
 
+    // Actualiza metadato CTE_LOCALIZACION a la localización seleccionada
+    if orig_fp == "usuario" {
+        components.set_meta("CTE_LOCALIZACION", &param_fp);
+    }
+
     println!("Factores de paso ({}): {}", orig_fp, param_fp);
 
     // Simplificación de los factores de paso -----------------------------------------------------
